@@ -16,8 +16,8 @@ def run(tier: str) -> int:
     chk.encode("tel2puml/logic_detection.py", "process_missing_and_gates (on hand-built OR trees)")
     chk.encode("tel2puml/events.py", "EventSet, get_reduced_event_set")
     chk.bounds = {"cover": "every non-empty family of non-empty subsets of a universe of 3 events (127 families; thorough: 4 events, 32767 "
-                           "families): soundness (partition of the universe, members observed, every observed set a union of members) and "
-                           "completeness against brute force over partitions",
+                           "families): soundness (partition of the universe, members observed, every observed set a union of members); "
+                           "completeness where exactness is demanded: families that are exactly the outcomes of an OR over AND-groups",
                   "gates": "OR over 2 or 3 plain events (optionally with an extra XOR child): process_missing_and_gates keeps every leaf "
                            "and the resulting tree admits every observed set"}
     chk.outside = ["calculate_process_tree_from_event_sets (pm4py inductive miner) and hence calculate_logic_gates as a whole",
